@@ -273,9 +273,17 @@ func (rfile *rFile) ReadObject() (obj py.Object, err error) {
 		case TYPE_LIST:
 			return updateRef(iref, py.NewListFromItems(tuple)), nil
 		case TYPE_SET:
-			return updateRef(iref, py.NewSetFromItems(tuple)), nil
+			set, err := py.NewSetFromItems(tuple)
+			if err != nil {
+				return nil, err
+			}
+			return updateRef(iref, set), nil
 		case TYPE_FROZENSET:
-			return updateRef(iref, py.NewFrozenSetFromItems(tuple)), nil
+			set, err := py.NewFrozenSetFromItems(tuple)
+			if err != nil {
+				return nil, err
+			}
+			return updateRef(iref, set), nil
 		}
 	case TYPE_SMALL_TUPLE:
 		var size uint8
